@@ -489,8 +489,10 @@ func (Prop) Run(p *core.Plan) *core.Result {
 	if crashed != "" {
 		return viol("crash", "crash:"+exp.why, "the command crashed instead of reporting (reference: "+exp.why+")")
 	}
-	if ee, ok := runErr.(*exec.ExitError); ok {
-		return viol("exit-status", "exit-status", fmt.Sprintf("the command exited with status %d", ee.ExitCode()))
+	nonZeroExit := false
+	if _, ok := runErr.(*exec.ExitError); ok {
+		// a non-zero exit status is a way of reporting an error; it is only wrong when a result was due
+		nonZeroExit = true
 	} else if runErr != nil {
 		return &core.Result{Infra: "cannot run the CLI: " + runErr.Error()}
 	}
@@ -501,7 +503,7 @@ func (Prop) Run(p *core.Plan) *core.Result {
 		}
 		if w.InputFault != "none" || !strings.Contains(exp.why, "no input file") {
 			// "reported": some line on stdout or stderr speaks of an error (any level, any wording containing "error")
-			if !strings.Contains(strings.ToLower(out+errOut), "error") {
+			if !nonZeroExit && !strings.Contains(strings.ToLower(out+errOut), "error") {
 				return viol("silent-error", "silent-error", "no output block and no error report although "+exp.why)
 			}
 		}
@@ -513,7 +515,8 @@ func (Prop) Run(p *core.Plan) *core.Result {
 	}
 	got := strings.TrimRight(out[i+len(marker):], "\n")
 	want := strings.TrimRight(exp.payload, "\n")
-	if got != want {
+	// compared by meaning, not by layout: same JSON value (time as an instant) / same parsed point
+	if got != want && !sameResult(got, want, w.OutType) {
 		key := "output-differs"
 		for _, part := range []string{"measurement", "time", "tags", "fields"} {
 			if differsIn(got, want, part, w.OutType) {
@@ -579,6 +582,41 @@ func runInProcess(p *core.Plan, w *Workload, ws string, args []string) (out stri
 		return out, fmt.Sprintf("panic: %v", pv)
 	}
 	return out, ""
+}
+
+// sameResult compares two rendered results by meaning: JSON documents as values (numbers as
+// written, the time as an instant), line protocol as parsed points.
+func sameResult(got, want, outType string) bool {
+	if outType == "json" {
+		var a, b map[string]interface{}
+		da := json.NewDecoder(strings.NewReader(got))
+		da.UseNumber()
+		db := json.NewDecoder(strings.NewReader(want))
+		db.UseNumber()
+		if da.Decode(&a) != nil || db.Decode(&b) != nil {
+			return false
+		}
+		ta, oka := a["time"].(string)
+		tb, okb := b["time"].(string)
+		if oka && okb {
+			x, e1 := time.Parse(time.RFC3339Nano, ta)
+			y, e2 := time.Parse(time.RFC3339Nano, tb)
+			if e1 != nil || e2 != nil || !x.Equal(y) {
+				return false
+			}
+			delete(a, "time")
+			delete(b, "time")
+		}
+		ja, _ := json.Marshal(a)
+		jb, _ := json.Marshal(b)
+		return string(ja) == string(jb)
+	}
+	pa, e1 := models.ParsePointsString(got)
+	pb, e2 := models.ParsePointsString(want)
+	if e1 != nil || e2 != nil || len(pa) != 1 || len(pb) != 1 {
+		return false
+	}
+	return pa[0].String() == pb[0].String()
 }
 
 func differsIn(got, want, part, outType string) bool {
